@@ -266,3 +266,38 @@ mod tests {
         assert_ne!(ct4, ct8_diff);
     }
 }
+
+/// Verification access shims (compiled only by the Kani model checker).
+#[cfg(kani)]
+pub mod verif_access {
+    use super::Salsa20Cipher;
+
+    /// Calls the private `quarter_round`.
+    pub fn quarter_round(state: &mut [u32; 16], a: usize, b: usize, c: usize, d: usize) {
+        Salsa20Cipher::quarter_round(state, a, b, c, d);
+    }
+    /// Builds a cipher from a raw state; no keystream generated yet.
+    pub fn from_state(state: [u32; 16]) -> Salsa20Cipher {
+        Salsa20Cipher {
+            state,
+            keystream: [0; 64],
+            keystream_pos: 64,
+        }
+    }
+    /// Calls the private `generate_keystream`.
+    pub fn generate_keystream(c: &mut Salsa20Cipher) {
+        c.generate_keystream();
+    }
+    /// Raw state words.
+    pub fn state(c: &Salsa20Cipher) -> [u32; 16] {
+        c.state
+    }
+    /// Current keystream block.
+    pub fn keystream(c: &Salsa20Cipher) -> [u8; 64] {
+        c.keystream
+    }
+    /// Position inside the current keystream block.
+    pub fn keystream_pos(c: &Salsa20Cipher) -> usize {
+        c.keystream_pos
+    }
+}
